@@ -564,6 +564,10 @@ class RTCDtlsTransport(AsyncIOEventEmitter):
                 pass
             self.__log_debug("- DTLS shutdown complete")
 
+        # a handshake which is still in progress must not report anything later
+        if self._state == State.CONNECTING:
+            self._set_state(State.CLOSED)
+
     async def __run(self) -> None:
         try:
             while True:
@@ -719,7 +723,7 @@ class RTCDtlsTransport(AsyncIOEventEmitter):
         self._role = role
 
     def _set_state(self, state: State) -> None:
-        if state != self._state:
+        if state != self._state and self._state != State.CLOSED:
             self.__log_debug("- %s -> %s", self._state, state)
             self._state = state
             self.emit("statechange")
